@@ -10,7 +10,7 @@ from simkit import gen, model
 from simkit.harness import HarnessError, World
 from simkit.seam import REAL
 
-TIERS = {"C07": {"quick": 2400, "thorough": 36000}}
+TIERS = {"C07": {"quick": 2400, "thorough": 20000}}
 LEVEL = {"C07": "exploration"}
 RULE = {
     "C07": "history: 2-8 objects (files + one directory object) added to a LocalHashFileDB or a "
